@@ -101,6 +101,10 @@ def prep_goto(job, wd):
         txt, n = TLS_ENUM_RE.subn(TLS_ENUM_SUB, txt)
         if n != 1:
             raise BuildError('front-end: myth_tls.h enumerator myth_tls_tree_node_sz_leaf changed shape; goto-cc patch not applicable')
+        if job.cfg.get('real_tls_types'):
+            open(base + '.i', 'w').write(txt)
+            must(['goto-cc', base + '.i', '-o', base + '.gb'], 'goto-cc')
+            return _post_gotocc(job, base)
         # second mechanical patch: the C89 'struct hack' array entries[1] gets its real extent, so that leaf
         # accesses are in-bounds typed accesses for cbmc (layout of both members' offsets is unchanged)
         txt, n2 = re.subn(r'myth_tls_entry_t entries\[1\];', 'myth_tls_entry_t entries[myth_tls_tree_node_n_entries_in_leaf];', txt)
@@ -114,6 +118,9 @@ def prep_goto(job, wd):
             raise BuildError('front-end: myth_tls.h struct myth_tls_tree_node changed shape; union patch not applicable')
         open(base + '.i', 'w').write(txt)
     must(['goto-cc', base + '.i', '-o', base + '.gb'], 'goto-cc')
+    return _post_gotocc(job, base)
+
+def _post_gotocc(job, base):
     cur = base + '.gb'
     if job.remove_bodies:
         nxt = base + '.rb.gb'
